@@ -181,6 +181,12 @@ template <class M, class = void> struct has_set_final : std::false_type {};
 template <class M> struct has_set_final<M, std::void_t<decltype(std::declval<M&>().set_final(true))>> : std::true_type {};
 template <class M> inline void set_final(M& m, bool f) { if constexpr (has_set_final<M>::value) m.set_final(f); }
 
+// optional Model::set_expected(const bj::object&): the expected observation of the step, for observables the
+// specification constrains by a predicate (membership in an emitted set) instead of determining them
+template <class M, class = void> struct has_set_expected : std::false_type {};
+template <class M> struct has_set_expected<M, std::void_t<decltype(std::declval<M&>().set_expected(std::declval<const bj::object&>()))>> : std::true_type {};
+template <class M> inline void set_expected(M& m, const bj::object& o) { if constexpr (has_set_expected<M>::value) m.set_expected(o); }
+
 struct ReplayStats {
   std::string cfg;
   long behaviours = 0, steps = 0, skipped = 0, deviations = 0, group = -1;
@@ -210,6 +216,7 @@ bool check_step(Model& m, const bj::object& act, const bj::object& got_act, cons
     }
     diff(it->value(), p.value(), std::string("act.") + std::string(p.key()), d);
   }
+  set_expected(m, expected_obs.as_object());
   bj::object obs = m.observe();
   bj::object eo = expected_obs.as_object();  // already canonical (replay_setup)
   m.mask(eo);
